@@ -79,6 +79,7 @@ def strategy_(draw: Any) -> Case:
         empty_enum=flip("empty_enum", 1),
         base_ne_proto=flip("base_ne_proto", 1),
         subdirs=True,
+        odd_file_names=True,
         extensible=draw(st.booleans()),
         bits_budget=300,
         big=False,
